@@ -115,7 +115,16 @@ func (dq *Deque[T]) Len() int { defer adt.With(adt.Lock(dq.mtx)); return dq.trac
 // Close marks the deque as closed, after which point all iterators
 // will stop and no more operations will succeed. The error value is
 // not used in the current operation.
-func (dq *Deque[T]) Close() error { defer adt.With(adt.Lock(dq.mtx)); dq.closed = true; return nil }
+func (dq *Deque[T]) Close() error {
+	defer adt.With(adt.Lock(dq.mtx))
+	dq.closed = true
+	// release everything that is blocked on the deque: waiters
+	// return ErrQueueClosed once they see the flag.
+	dq.nfront.Broadcast()
+	dq.nback.Broadcast()
+	dq.updates.Broadcast()
+	return nil
+}
 
 // PushFront adds an item to the front or head of the deque, and
 // erroring if the queue is closed, at capacity, or has reached its
